@@ -20,8 +20,7 @@ RULE = ("a case = a whole operation history on two objects of one flavour: stati
         "{65534,65535,65536}; exhaustive part: every content state of length <= cap <= 3 over values {1,18,35} x every single "
         "operation (59 static_vector operations, 17 stack operations, 25 inplace_vector operations) with every position/count/index "
         "argument in [-1, size+1]; short exhaustive histories for inplace_vector and stack; random part: seeded capacity-aware "
-        "histories of length <= 40, ~35% of steps at or crossing full/empty, fill-to-boundary runs at 254/255/256 (and, thorough tier, "
-        "65534/65535/65536); non-trivial = distinct history that reaches a non-empty state")
+        "histories of length <= 40, ~35% of steps at or crossing full/empty, fill-to-boundary runs at 254/255/256 and 65534/65535/65536; non-trivial = distinct history that reaches a non-empty state")
 TRUSTED_BASE = ["reference leg: libstdc++ 12 std::vector<int> / std::stack<int, std::vector<int>> driven by the same history "
                 "(reserve()d, so no reallocation effects)",
                 "props/C01/pcxx.py (parallel compile wrapper around g++)"]
@@ -395,15 +394,21 @@ def gen(tier, rng):
             if n <= 4 or not quick:
                 fl = rng.choice(["sv_trk", "sv_str", "sv_mov"] if n <= 4 else ["sv_trk", "sv_mov"])
                 out.append(hist(fl, 4 if n <= 4 else 16, [f"mir 0 0 {L(xs)}", "eif 0 1", "rel"]))
-    # ---- the size-type boundaries 65534 / 65535 / 65536: the objects exist and work (quick); filled to the boundary
-    #      and back (thorough: one fill costs the extracted model ~10^10 list steps)
+    # ---- the size-type boundaries 65534 / 65535 / 65536 (uint16 up to 65534, uint32 from 65535): short histories on the
+    #      empty objects, then fill to capacity - 1, step over the boundary and back.  Only operations that are cheap
+    #      in the extracted model (no copies / swaps / reads of a whole vector); the fills themselves run through the
+    #      closed form fill_fast (Properties_ext.C01_fast_model_equal)
     for cap in BIG_CAPS:
         out.append(hist("sv_int", cap, ["pb 0 1", "ctv 1 3 18", "irv 0 0 35", "mxs 0", "rel", "rit 0 0", "fsw", "cpi 0 1 7"]))
         out.append(hist("iv_int", cap, ["tpb 0 1", "fil 1 3 18", "tem 0 35", "mxs 0", "cpa 1", "sbk 1 7", "mva 0", "dat 0"]))
-    if not quick and tier != "search":
+        out.append(hist("sv_int", cap, [f"inn 0 0 {cap - 1} 1", "pb 0 18", "mxs 0", "bk 0", f"at 0 {cap - 1}", f"sat 0 {cap - 1} 7", "pop 0",
+                                        f"era 0 {cap - 2}", f"irv 0 {cap - 2} 5", "pb 0 3"]))
+        out.append(hist("iv_int", cap, [f"fil 0 {cap - 1} 1", "tpb 0 18", "tem 0 35", "mxs 0", "bk 0", f"at 0 {cap - 1}", f"sat 0 {cap - 1} 7",
+                                        "cpa 1", "pop 0", "tpr 0 3", "upb 0 4"]))
+    if not quick:
         for cap in BIG_CAPS:
-            out.append(hist("sv_int", cap, [f"asn 0 {cap - 1} 1", "pb 0 18", "mxs 0", "pop 0", "swp", "bk 1"]))
-            out.append(hist("iv_int", cap, [f"fil 0 {cap - 1} 1", "tpb 0 18", "tem 0 35", "mxs 0", "pop 0", "bk 0"]))
+            out.append(hist("sv_int", cap, [f"inn 0 0 {cap} 35", "mxs 0", f"at 0 {cap}", "pop 0", "emp 0 0 1", "clr 0", f"inn 0 0 {cap + 1} 1"]))
+            out.append(hist("iv_int", cap, [f"fil 0 {cap + 7} 35", "tpr 0 1", "mva 1", f"fil 0 {cap - 2} 18", "tem 0 1", "tem 0 3", "tem 0 5", "uem 0 7"]))
     # ---- random capacity-aware histories
     n_rand = 2600 if quick else (20000 if tier == "search" else 120000)
     flavours = ["sv_int"] * 5 + ["sv_trk"] * 2 + ["sv_nxc", "sv_str", "sv_mov", "sv_mov", "sv_pod"] + \
